@@ -320,6 +320,25 @@ pub fn xml_escape_styled(s: &str, style: u8) -> String {
     o
 }
 
+pub fn continuation_token(last_key: &str) -> String {
+    last_key.bytes().map(|b| format!("{:02x}", b)).collect()
+}
+
+/// S3 pagination: given the objects selected by the prefix (in byte order), drop everything up to and including the key
+/// named by the request's `continuation-token` (as issued by `list_document`) or `start-after` parameter.
+pub fn page_after(mut objects: Vec<ListedObject>, req: &Request) -> Vec<ListedObject> {
+    let after: Option<Vec<u8>> = if let Some(tok) = req.query_value("continuation-token") {
+        let t = tok.as_bytes();
+        Some((0..t.len() / 2).filter_map(|i| std::str::from_utf8(&t[2 * i..2 * i + 2]).ok().and_then(|h| u8::from_str_radix(h, 16).ok())).collect())
+    } else {
+        req.query_value("start-after").map(|v| v.as_bytes().to_vec())
+    };
+    if let Some(a) = after {
+        objects.retain(|o| o.key.as_bytes() > &a[..]);
+    }
+    objects
+}
+
 #[derive(Clone, Debug)]
 pub struct ListedObject {
     pub key: String,
@@ -360,7 +379,9 @@ pub fn list_document_styled(bucket: &str, prefix: &str, objects: &[ListedObject]
         s.push_str(&format!("{}</Contents>", nl));
     }
     if truncated && extras {
-        s.push_str(&format!("{}<NextContinuationToken>1ueGcxLPRx1Tr/XYExHnhbYLgveDs2J/wm36Hy4vbOwM=</NextContinuationToken>", nl));
+        // an opaque token that this simulator honours (see `page_after`): the hex form of the last key of the page
+        let token = objects.last().map(|o| continuation_token(&o.key)).unwrap_or_else(|| "00".into());
+        s.push_str(&format!("{}<NextContinuationToken>{}</NextContinuationToken>", nl, token));
     }
     if pretty {
         s.push('\n');
